@@ -467,42 +467,54 @@ impl std::ops::Mul<i32> for Glue {
 }
 
 impl Glue {
+    /// The stretch (or shrink) of a sum of two glues, TeX.2021.1239.
+    ///
+    /// `lhs` belongs to the glue being advanced and `rhs` to the glue added to it.
+    /// A zero stretch has no order of infinity: it never hides the other summand.
+    fn add_flex(
+        lhs: (Scaled, GlueOrder),
+        rhs: (Scaled, GlueOrder),
+        add: fn(Scaled, Scaled) -> Option<Scaled>,
+    ) -> Option<(Scaled, GlueOrder)> {
+        let rhs_order = if rhs.0 == Scaled::ZERO {
+            GlueOrder::Normal
+        } else {
+            rhs.1
+        };
+        Some(if rhs_order == lhs.1 {
+            (add(lhs.0, rhs.0)?, lhs.1)
+        } else if rhs_order < lhs.1 && lhs.0 != Scaled::ZERO {
+            lhs
+        } else {
+            (rhs.0, rhs_order)
+        })
+    }
+    fn add_impl(self, rhs: Glue, add: fn(Scaled, Scaled) -> Option<Scaled>) -> Option<Self> {
+        let (stretch, stretch_order) = Glue::add_flex(
+            (self.stretch, self.stretch_order),
+            (rhs.stretch, rhs.stretch_order),
+            add,
+        )?;
+        let (shrink, shrink_order) = Glue::add_flex(
+            (self.shrink, self.shrink_order),
+            (rhs.shrink, rhs.shrink_order),
+            add,
+        )?;
+        Some(Glue {
+            width: add(self.width, rhs.width)?,
+            stretch,
+            stretch_order,
+            shrink,
+            shrink_order,
+        })
+    }
     /// TeX.2021.1239
     pub fn wrapping_add(self, rhs: Glue) -> Self {
-        use std::cmp::Ordering::*;
-        Glue {
-            width: self.width.wrapping_add(rhs.width),
-            stretch: match self.stretch_order.cmp(&rhs.stretch_order) {
-                Less => rhs.stretch,
-                Equal => self.stretch.wrapping_add(rhs.stretch),
-                Greater => self.stretch,
-            },
-            stretch_order: self.stretch_order.max(rhs.stretch_order),
-            shrink: match self.shrink_order.cmp(&rhs.shrink_order) {
-                Less => rhs.shrink,
-                Equal => self.shrink.wrapping_add(rhs.shrink),
-                Greater => self.shrink,
-            },
-            shrink_order: self.shrink_order.max(rhs.shrink_order),
-        }
+        self.add_impl(rhs, |a, b| Some(a.wrapping_add(b)))
+            .expect("wrapping addition does not fail")
     }
     pub fn checked_add(self, rhs: Glue) -> Option<Self> {
-        use std::cmp::Ordering::*;
-        Some(Glue {
-            width: self.width.checked_add(rhs.width)?,
-            stretch: match self.stretch_order.cmp(&rhs.stretch_order) {
-                Less => rhs.stretch,
-                Equal => self.stretch.checked_add(rhs.stretch)?,
-                Greater => self.stretch,
-            },
-            stretch_order: self.stretch_order.max(rhs.stretch_order),
-            shrink: match self.shrink_order.cmp(&rhs.shrink_order) {
-                Less => rhs.shrink,
-                Equal => self.shrink.checked_add(rhs.shrink)?,
-                Greater => self.shrink,
-            },
-            shrink_order: self.shrink_order.max(rhs.shrink_order),
-        })
+        self.add_impl(rhs, Scaled::checked_add)
     }
     pub fn checked_mul(self, rhs: i32) -> Option<Self> {
         Some(Glue {
